@@ -483,11 +483,16 @@ def run_part(pid, part, tier, report, known):
     incon = []
     names = part.get('specs')
     todo = [(n, globals()[n]) for n in names] if names else SPECS[pid]
-    for title, fn in todo:
+    for entry in todo:
+        title, fn = entry[0], entry[1]
+        n0 = len(ctx.obligations)
         try:
             fn(ctx)
         except M.Unsupported as e:
             incon.append('E2 %s: %s' % (title, e))
+        if len(entry) > 2:
+            # only the clauses of this specification that concern the property (entry[2]: predicate on the clause text)
+            ctx.obligations[n0:] = [o for o in ctx.obligations[n0:] if entry[2](o['name'])]
     # cvc5 cross-check of every z3 verdict
     bad, n_x, t_x = ctx.prover.cross_check(None if tier == 'thorough' else 400)
     for name, a, b in bad:
@@ -1794,6 +1799,12 @@ def spec_meta(ctx):
                     ok_all, why = False, 'vtable function not taken at the index of the type id just read: %s vs %s' % (vt, gets[-1].args[1])
                 if not ctx.valid('yield', to_term(o.value.fields[0]) == mp[0].result) or not ctx.valid('bsrc', mp[0].args[0] == b[0].result):
                     ok_all, why = False, 'yielded value is not the mapped borrow'
+                # the cursor left behind is one past the entry just yielded (also after skipping absent types): nothing is yielded twice
+                left = final_heap(o, M.f_deref(P(1)), [i_idx])
+                lt = to_term(left) if left is not None else None
+                pos = gets[-1].args[1]
+                if not (lt is not None and z3.is_app(lt) and lt.decl().name().startswith('mk_op_Add') and lt.num_args() == 2 and lt.arg(0).eq(pos) and '1_usize' in _cst_text(str(lt.arg(1)))):
+                    ok_all, why = False, 'after yielding the entry at %s the iterator\'s index is left at %s (must be that position + 1)' % (str(pos).replace('\n', ' ')[:80], str(lt).replace('\n', ' ')[:120])
             elif isinstance(o.value, Agg) and o.value.variant == 'None':
                 # exhausted: the last tys.get said None
                 if not (gets and any(str(w) == 'disc(%s)' % gets[-1].result and k == 0 for w, k in o.st.decisions)):
@@ -2733,12 +2744,30 @@ SPECS['C15'] = [('accessors and the poll', spec_async_accessors), ('state hand-o
 
 # ---- the properties whose E2 part used to be a hand-picked list in props.py: the table above is the single source now
 def _ensure(pid, *fns):
-    have = [f for _, f in SPECS.get(pid, [])]
+    have = [e[1] for e in SPECS.get(pid, [])]
     for title, fn in fns:
         if fn not in have:
             SPECS.setdefault(pid, []).append((title, fn))
 
 
+# a batch is an ordinary system of its parent: how add_batch registers it and what it announces for it matters to every
+# property about plans (seeds C13-x, C19-x sat in add_batch and were missed by checks that did not look at it)
+for _p in ('C02', 'C03', 'C10', 'C12', 'C13', 'C18', 'C19'):
+    _ensure(_p, ('add_batch registers the batch and announces the union', spec_add_batch), ('batch wrapper reports it', spec_batch_wrapper))
+# the access tables are also what fetch_all_* (hence a parent builder) reads: add_barrier may only move the barrier
+# (seeds C01-x, C07-x emptied the tables of the sealed stages)
+for _p in ('C01', 'C05', 'C07', 'C19'):
+    _ensure(_p, ('add_barrier only moves the barrier index', spec_add_barrier))
+def _dispatch_clauses(name):
+    """clauses of spec_forwarders about the dispatch entry points (not setup / dispose / conversion)"""
+    return re.search(r'dispatch', name) is not None and re.search(r'::(setup|dispose)\b|try_into_sendable|RunNow', name) is None
+
+
+# which of dispatch_par / dispatch_seq `dispatch` forwards to, and that each of them walks every stage once, is part of
+# every property about what a dispatch does (seed C11-y: `SendDispatcher::dispatch` fell back to dispatch_seq on a busy worker)
+for _p in ('C01', 'C02', 'C03', 'C05', 'C10', 'C11'):
+    if spec_forwarders not in [e[1] for e in SPECS.get(_p, [])]:
+        SPECS[_p] = SPECS[_p] + [('dispatch entry points forward to the parallel / sequential walk of all stages', spec_forwarders, _dispatch_clauses)]
 _ensure('C09', ('fetch paths address the slot of the id they are given', spec_world_fetch))
 _ensure('C01', ('Stage::execute / dispatch_par structure', spec_stage_exec))
 _ensure('C03', ('commit part of insert', spec_insert))
